@@ -1147,7 +1147,7 @@ func runModelHistory(id int, seed int64, mix string, n int, script []Cmd) ModelH
 		h.Results = append(h.Results, modelResult(out))
 		rawResults = append(rawResults, canonResult(out))
 		after := instanceSigs(d.store())
-		renamed = renamed || reRegistered(sigs, after) || txnRenames(data)
+		renamed = renamed || reRegistered(sigs, after) || txnRenames(data, sigs)
 		sigs = after
 	}
 	h.Final = modelDump(d.store())
